@@ -4,6 +4,7 @@ package main
 // Passive form: every assigned/merged value is a fresh SMT constant with one defining equation.
 
 import (
+	"sort"
 	"fmt"
 	"go/ast"
 	"go/constant"
@@ -388,14 +389,28 @@ func (c *Ctx) merge(a, b *State) *State {
 	n.guard = c.defRaw("g", "Bool", or(a.guard, b.guard))
 	c.mergeA, c.mergeB = a, b
 	defer func() { c.mergeA, c.mergeB = nil, nil }()
-	for k, va := range a.env {
+	// deterministic order (by declaration position): the emitted definitions then come in the same order for the same
+	// code shape, which is what lets alpha-equivalent queries be recognised — and makes runs reproducible
+	keys := make([]types.Object, 0, len(a.env))
+	for k := range a.env {
+		keys = append(keys, k)
+	}
+	sort.Slice(keys, func(i, j int) bool {
+		if keys[i].Pos() != keys[j].Pos() {
+			return keys[i].Pos() < keys[j].Pos()
+		}
+		return keys[i].Name() < keys[j].Name()
+	})
+	for _, k := range keys {
+		va := a.env[k]
 		if vb, ok := b.env[k]; ok {
 			if mv := c.mergeVal(a.guard, va, vb); mv != nil {
 				n.env[k] = mv
 			}
 		}
 	}
-	for k, ha := range a.heap {
+	for _, k := range sortedKeys(a.heap) {
+		ha := a.heap[k]
 		hb, ok := b.heap[k]
 		if !ok {
 			n.heap[k] = ha
